@@ -35,7 +35,7 @@ from ..runner import Entry, differential
 from . import c01_translate
 
 PRE = ("From EsVerif.Common Require Import Base Bytes.\n"
-       "From EsVerif.C01 Require Import Framing Model Spec Big Exec.\n"
+       "From EsVerif.C01 Require Import Framing Model Spec Big Pyval Uncond Exec.\n"
        "From Coq.Strings Require Import Byte.\nOpen Scope list_scope.\n")
 
 _TMP = [None, 0]
@@ -707,6 +707,112 @@ def monitor(text, head, data_dtype):
     return {"a": bool(a), "b": bool(b), "c": bool(c)}
 
 
+# ----------------------------------------------------------------------------------------------
+# the Python layer of the model (coq/theories/C01/Pyval.v): header values as Coq terms, and a mirror of Pyval.pv_print
+# ----------------------------------------------------------------------------------------------
+
+class NotInSubset(Exception):
+    pass
+
+
+def _pv_items(d):
+    if not all(isinstance(k, str) for k in d):
+        raise NotInSubset("dict key that is not a str")
+    return sorted(d.items())            # pformat's order (sort_dicts=True), at every level
+
+
+def cpv(v):
+    """Python literal value -> Coq term of type Pyval.pv (dict items in pformat's sorted order)"""
+    import math
+    if v is None:
+        return "PNone"
+    if v is True or v is False:
+        return "(PBool %s)" % cbool(v)
+    if type(v) is int:
+        return "(PInt %s)" % cz(v)
+    if type(v) is float:
+        if not math.isfinite(v):
+            raise NotInSubset("non-finite float")
+        return "(PFloat %s)" % cbytes(repr(v).encode())
+    if type(v) is str:
+        return "(PStr %s)" % cbytes(v.encode("utf-8"))
+    if type(v) is bytes:
+        return "(PBytes %s)" % cbytes(v)
+    if type(v) is list:
+        return "(PList [%s])" % "; ".join(cpv(x) for x in v)
+    if type(v) is tuple:
+        return "(PTuple [%s])" % "; ".join(cpv(x) for x in v)
+    if type(v) is dict:
+        return "(PDict %s)" % chdict(v)
+    raise NotInSubset("value of type %s" % type(v).__name__)
+
+
+def chdict(d, top=False):
+    """top: a header dict, printed in dict order (what Model.make_header and Python's dict do); nested dicts sorted"""
+    items = _pv_items(d)
+    if top:
+        items = list(d.items())
+    return "[%s]" % "; ".join("(%s, %s)" % (cbytes(k.encode("utf-8")), cpv(x)) for k, x in items) if items else "(@nil (list byte * pv))"
+
+
+def _esc(bm, raw):
+    out = bytearray()
+    for b in raw:
+        if b == 0x5c:
+            out += b"\\\\"
+        elif b == 0x27:
+            out += b"\\'"
+        elif b == 0x0a:
+            out += b"\\n"
+        elif b < 32 or b == 127 or (bm and b >= 128):
+            out += b"\\x%02x" % b
+        else:
+            out.append(b)
+    return bytes(out)
+
+
+def pv_text(v, top=False):
+    """mirror of Pyval.pv_print (checked against it in Coq on every header: Exec.v_hpf_real): one line, every token
+    followed by one blank, a comma after every element"""
+    if v is None:
+        return b"None "
+    if v is True or v is False:
+        return b"True " if v else b"False "
+    if type(v) is int:
+        return b"%d " % v
+    if type(v) is float:
+        return repr(v).encode() + b" "
+    if type(v) is str:
+        return b"'" + _esc(False, v.encode("utf-8")) + b"' "
+    if type(v) is bytes:
+        return b"b'" + _esc(True, v) + b"' "
+    if type(v) is list:
+        return b"[ " + b"".join(pv_text(x) + b", " for x in v) + b"] "
+    if type(v) is tuple:
+        return b"( " + b"".join(pv_text(x) + b", " for x in v) + b") "
+    if type(v) is dict:
+        items = list(v.items()) if top else _pv_items(v)
+        if not all(isinstance(k, str) for k, _ in items):
+            raise NotInSubset("dict key that is not a str")
+        return b"{ " + b"".join(pv_text(k) + b": " + pv_text(x) + b", " for k, x in items) + b"} "
+    raise NotInSubset("value of type %s" % type(v).__name__)
+
+
+def hpf_observation(uhdr, head, data_dtype):
+    """what Exec.v_hpf_real needs about the header dict the real _make_header built (None: outside the modelled subset)"""
+    try:
+        mirror = pv_text(head, top=True)
+        try:
+            ev = builtins.eval(mirror.decode("utf-8"), {})
+            eval_ok = bool(isinstance(ev, dict) and ev == head and list(ev) == list(head) and all(type(ev[k]) is type(head[k]) for k in head))
+        except Exception:  # noqa
+            eval_ok = False
+        return {"uhdr": chdict(uhdr or {}, top=True), "head": chdict(head, top=True), "mirror": mirror.hex(), "eval_ok": eval_ok,
+                "dtype": fields_of(data_dtype)}
+    except (NotInSubset, UnicodeError) as e:
+        return {"skipped": str(e)}
+
+
 _UNSET = object()
 
 
@@ -746,6 +852,7 @@ def sfile_roundtrip(kind, c, fname, objs=None, data=None, hdr=_UNSET, keep_file=
         out["made_header"] = {"ukeys_order": uorder, "pairs": pairs}
     if text is not None:
         out["monitor"] = monitor(text, head, data.dtype)
+        out["hpf"] = hpf_observation(hdr, head, data.dtype)
     out["scan"] = real_scan(fname)
     try:
         rdata, rhdr, texts = real_read(c.get("reader", kind), fname, c.get("via", "read"), objs=objs, rkw=c.get("rkw"),
@@ -794,6 +901,8 @@ class SFileEntry(IsoEntry):
         return cs
 
     def post(self, c, out):
+        if out.get("hpf") is not None:
+            self.__dict__.setdefault("hpf", []).append((out["text"], out["hpf"]))
         if out.get("monitor") is not None:
             self.nmonitored += 1
             self.texts.append(out["text"])
@@ -1318,6 +1427,7 @@ class ManyRows(IsoEntry):
                 out["text"] = text
                 if text is not None:
                     out["monitor"] = monitor(text, head, data.dtype)
+                    out["hpf"] = hpf_observation(hdr, head, data.dtype)
             elif ep == "recfile.read":
                 recfile.write(fname, data)
             else:
@@ -1874,8 +1984,13 @@ TRUSTED = [
     "the SIZE formats of sfile.py and Records::update_row_count, the deleted-key list, the scanner literal/length/increment, "
     "Recfile._get_slice_nrows, Recfile._count_nrows (binary branch), Records::process_slice, Records::process_nrows; the translators "
     "(python ast via harness/translate/tint.py, a mini C statement/expression translator) are trusted to print what the source says",
-    "assumed, monitored per case (contract H_pf of C01/Spec.v): pprint.pformat / eval / numpy.dtype(descr) — (a) text has no NUL/0xFF "
-    "byte and no line is END, (b) eval(' '.join(lines)) == header, (c) numpy.dtype(evaluated _DTYPE) == data dtype; Python == on header values",
+    "Python layer: C01_roundtrip keeps pformat / eval / numpy.dtype abstract under the contract H_pf; C01/Pyval.v + Uncond.v give a concrete "
+    "model (header values, printer, parser of Python's literal syntax, numpy.dtype on packed descr lists) for which H_pf is a THEOREM "
+    "(C01_H_pf_holds, C01_roundtrip_unconditional).  What ties that model to the real Python: on every header of a run, inside Coq, the "
+    "verified checker hpf_check (sound: C01_hpf_check_sound) accepts the REAL pformat text — the verified parser reads it back to a dict "
+    "equal to the header the real _make_header built, which equals the model's make_header — and the REAL eval of the model printer's text "
+    "== header.  Remaining assumption: the parser Pyval.pv_parse agrees with Python's eval on pformat output (sampled as above, not proved); "
+    "the Python-side monitor of H_pf (a)(b)(c) still runs as before",
     "modelled, not verified: C stdio (fopen/fseek/ftell/fread/fwrite/fgetc as operations on a byte list; signed char makes 0xFF look like EOF), "
     "UTF-8 encode/decode of the header text (identity on bytes), numpy's memory layout (element i of a view = itemsize bytes at "
     "start + sum(index_k * stride_k) of the base buffer; ascontiguousarray = the elements in C order; tobytes()), numpy.zeros + fread "
@@ -1934,6 +2049,35 @@ def run(ctx, replay=None):
         ctx.obligation("contract monitor H_pf (a): hdr_text_ok = true on %d distinct pformat texts (evaluated in Coq)" % len(texts), not bad)
         for t in bad[:3]:
             fails.append({"entry": "monitor", "pformat_text": t, "monitor": {"a": False}})
+    # ---- the Python layer of the model (Pyval.v / Uncond.v) against the real pformat / eval / numpy.dtype
+    obs, skipped = {}, 0
+    for e in ENTRIES:
+        for text, h in getattr(e, "hpf", []):
+            if "skipped" in h:
+                skipped += 1
+            elif h["dtype"] is not None:
+                obs.setdefault((text, h["head"], h["uhdr"]), h)
+    ctx.count("pylayer:headers", len(obs))
+    ctx.count("pylayer:outside-subset", skipped)
+    if obs:
+        keys = sorted(obs)
+        terms = ["v_hpf_real %s %s %s %s %s" % (cbytes(k[0].encode()), obs[k]["uhdr"], k[1], cbytes(bytes.fromhex(obs[k]["mirror"])),
+                                                cdtype(obs[k]["dtype"])) for k in keys]
+        try:
+            vals = core.coq_eval(os.path.join(ctx.work, "pyl"), PRE, terms, tag="pyl")
+            badk = [k for k, v in zip(keys, vals) if v.strip("() ").replace("%Z", "") != "0"]
+        except core.CoqEvalError as e:
+            badk = [("<coq evaluation failed: %s>" % str(e)[-300:], "")]
+        bade = [k for k in keys if not obs[k]["eval_ok"]]
+        ctx.obligation("Python layer (Pyval.v/Uncond.v): hpf_check accepts the REAL pformat text (clause (a); model _make_header = the real "
+                       "header dict; the verified parser reads the real text back to an equal dict) and the model printer's text is the "
+                       "mirror — on %d headers (evaluated in Coq; C01_hpf_check_sound: H_pf then holds for the real text)" % len(keys), not badk)
+        ctx.obligation("Python layer (Pyval.v): the REAL eval of the model printer's text == header on %d headers" % len(keys), not bade)
+        for k in (badk + bade)[:3]:
+            ctx.violation("the model of pformat / eval / numpy.dtype (C01/Pyval.v, Uncond.v) differs from the real one on a header of the "
+                          "modelled subset (a defect of the model's Python layer, not of esutil)",
+                          {"kind": "python-layer", "pformat_text": k[0], "head_term": k[1][:2000],
+                           "no_longer_checks": "C01_roundtrip_unconditional speaks about the real pformat/eval on this header"}, found_input=False)
     for f in fails[:5]:
         ctx.violation("CONTRACT MONITOR H_pf failed (assumption of the model about pprint.pformat/eval/numpy.dtype, not a defect of "
                       "esutil): clauses %s" % sorted(k for k, v in f["monitor"].items() if not v),
